@@ -10,7 +10,7 @@ use serde_json::{json, Value};
 use std::num::NonZero;
 use vph::refdec;
 
-pub const RULE: &str = "every input length 1..49 (block 16) × 3 signal kinds × channels {1,2} × depth {8,16} × seek policy {off, frames 1/2/3, seconds 1 at rates 16/24/44100/0} × declared/undeclared × padding {none, 4096, 4+18k+δ for δ∈−8..8 (k = seek points of this configuration)} × writer start offset {0,7} × extra metadata {none, comment+application}; each finished device image is judged by the independent validator (sample count, parameters, frame-size extrema, block-size rule, MD5, every defined seek point = a real frame, ordering, placeholders last), by the device call log (audio region append-only, header rewrite confined to [start, first frame), metadata length unchanged, junk before start untouched) and by generate_seektable(file, same interval) == defined points; thorough adds >932067-frame streams";
+pub const RULE: &str = "every input length 1..49 (block 16) × 3 signal kinds × channels {1,2} × depth {8,16} × seek policy {off, frames 1/2/3, seconds 1 at rates 16/24/44100/0} × declared/undeclared × padding {none, 4096, 4+18k+δ for δ∈−8..8 (k = seek points of this configuration)} × writer start offset {0,7} × extra metadata {none, comment+application}; each finished device image is judged by the independent validator (sample count, parameters, frame-size extrema, block-size rule, MD5, every defined seek point = a real frame, ordering, placeholders last), by the device call log (audio region append-only, header rewrite confined to [start, first frame), metadata length unchanged, junk before start untouched) and by generate_seektable(file, same interval) == defined points; plus the byte (LE/BE) and channel writers × length 1..49 × channels {1,2} × depth {8,12,16,24,32} × declared/undeclared × seek table on/off judged by the independent validator; thorough adds >932067-frame streams";
 pub const ASSUMPTIONS: &[&str] = &["PCM values come from 3 fixed signal kinds (values: C01)"];
 pub fn bounds(quick: bool) -> Value {
     json!({"lengths": "1..49", "padding_delta": "-8..8", "huge_stream": if quick { "not run" } else { "932100 frames of 16 constant samples, declared and undeclared, seektable_frames(1)" }})
@@ -201,7 +201,54 @@ fn huge(declared: bool) -> Result<(), (String, String)> {
     }
 }
 
+/// every writer front-end / byte order must produce truthful STREAMINFO as well (sample writer: main grid above)
+fn front_ends(ctx: &Ctx, acc: &mut Acc) {
+    use crate::codec::{encode_calls, WriterKind};
+    for len in 1..=49usize {
+        for ch in [1u8, 2] {
+            for bps in [8u32, 12, 16, 24, 32] {
+                for w in [WriterKind::ByteLE, WriterKind::ByteBE, WriterKind::Channel] {
+                    for declared in [true, false] {
+                        for seek in [Seek::Frames(1), Seek::Off] {
+                            if !ctx.mine() {
+                                continue;
+                            }
+                            let sig = Sig { rate: 44100, bps, ch };
+                            let pcm = signal(1, &sig, len);
+                            let opt = Opt { seek, declared, pad: Pad::Size(64), ..Opt::base16() };
+                            acc.states += 1;
+                            acc.executions += 1;
+                            acc.transitions += 3;
+                            // two write calls, cut in the writer's native unit
+                            let units = match w { WriterKind::Channel => len, _ => pcm.len() * crate::codec::bytes_per_sample(bps) };
+                            let cut = units / 3;
+                            let case = json!({"kind":"finalize-frontend","writer":format!("{w:?}"),"len":len,"ch":ch,"bps":bps,"rate":44100,"opt":opt.to_json(),"cut":cut});
+                            match encode_calls(w, &opt, &sig, &pcm, Some(&[cut])) {
+                                Err(e) => acc.violation(format!("C09|frontend|{w:?}|encode-{}", err_class(&e)), format!("{w:?} len {len} {ch}ch/{bps}bit: {e}"), case),
+                                Ok(bytes) => {
+                                    let (st, viol) = refdec::validate(&bytes);
+                                    let viol: Vec<String> = viol.into_iter().filter(|v| !(v.contains("bps") && v.contains("< 4"))).collect();
+                                    if let Some(v) = viol.first() {
+                                        let code = if v.starts_with("reject:") { v.split_whitespace().next().unwrap_or(v).to_string() } else { v.split(": ").last().unwrap_or(v).split_whitespace().next().unwrap_or("?").to_string() };
+                                        acc.outcome(format!("frontend:{w:?}:bad"));
+                                        acc.violation(format!("C09|frontend|{w:?}|untruthful-{code}"), format!("{w:?} len {len} {ch}ch/{bps}bit declared={declared}: independent validator: {}", viol.join("; ")), case);
+                                    } else if st.map(|s| s.pcm != pcm).unwrap_or(true) {
+                                        acc.violation(format!("C09|frontend|{w:?}|pcm"), format!("{w:?} len {len}: independent decode differs"), case);
+                                    } else {
+                                        acc.outcome(format!("frontend:{w:?}:ok"));
+                                    }
+                                }
+                            }
+                        }
+                    }
+                }
+            }
+        }
+    }
+}
+
 pub fn run(ctx: &Ctx, acc: &mut Acc) {
+    front_ends(ctx, acc);
     let seeks: Vec<(Seek, u32)> = vec![(Seek::Off, 44100), (Seek::Frames(1), 44100), (Seek::Frames(2), 44100), (Seek::Frames(3), 44100), (Seek::Seconds(1), 16), (Seek::Seconds(1), 24), (Seek::Seconds(1), 44100), (Seek::Seconds(1), 0)];
     for len in 1..=49usize {
         for kind in 0..3 {
@@ -268,6 +315,22 @@ pub fn replay(v: &Value) -> Option<(bool, String)> {
             let c = Cfg { len: v["len"].as_u64()? as usize, kind: v["signal"].as_u64()? as usize, sig: crate::codec::sig_from(v), seek: o.seek, declared: o.declared, pad: o.pad, start: v["start"].as_u64()? as usize, extra: v["extra"].as_bool()? };
             let r = run_case(&c);
             Some((r.is_err(), format!("{r:?}")))
+        }
+        "finalize-frontend" => {
+            use crate::codec::{encode_calls, writer_from};
+            let sig = crate::codec::sig_from(v);
+            let len = v["len"].as_u64()? as usize;
+            let pcm = signal(1, &sig, len);
+            let opt = Opt::from_json(&v["opt"]);
+            let r = encode_calls(writer_from(v["writer"].as_str()?), &opt, &sig, &pcm, Some(&[v["cut"].as_u64()? as usize]));
+            match r {
+                Err(e) => Some((true, e)),
+                Ok(bytes) => {
+                    let (st, viol) = refdec::validate(&bytes);
+                    let viol: Vec<String> = viol.into_iter().filter(|v| !(v.contains("bps") && v.contains("< 4"))).collect();
+                    Some((!viol.is_empty() || st.map(|s| s.pcm != pcm).unwrap_or(true), format!("{viol:?}")))
+                }
+            }
         }
         "finalize-huge" => {
             let r = huge(v["declared"].as_bool()?);
